@@ -20,7 +20,8 @@ fn spec(tier: Tier) -> (CfgSpec, OpSpec) {
         CfgSpec {
             kinds: [3, 3, 3],
             chans: (1, 3),
-            mems: &[200_000, 8_000, 20_000, 5 * 1024 * 1024],
+            // also budgets smaller than one datagram's message, and none at all
+            mems: &[200_000, 8_000, 20_000, 5 * 1024 * 1024, 512, 0, 1024],
             budgets: &[60_000, 6_000, 1_000_000],
             resends: RESENDS,
             clients: (4, 4),
